@@ -2,6 +2,7 @@ SPECIFICATION Spec
 CONSTANTS
   MaxConds = 2
   MaxList = 3
+  MaxStr = 18
   MaxSetLen = 2
 INVARIANTS
   Emit
